@@ -196,7 +196,9 @@ def check_avg_number_of_nodes(repo: Repo, rep: Report, cls):
     # directed: the shape with a reciprocal pair and an interaction that points back to an earlier node
     shape = SHAPES[True][1] if cls == "DynDiGraph" else SHAPES[False][0]
     keys = sorted({shape.key(*e) for e in shape.edges}, key=str)
-    varied = keys if len(keys) <= 2 else [("A", "B"), ("C", "A")]
+    # varied exhaustively: both directions of the reciprocal pair (each may be the only one alive at an instant) and the
+    # interaction that points back to an earlier node
+    varied = keys if len(keys) <= 2 else [("A", "B"), ("B", "A"), ("C", "A")]
     ot = OrderType([["q"], ["t"]], [None], 12)
     offs = AvgWorld.OFFS
     all_ids = [offs[0] - 3] + list(offs) + [offs[-1] + 3]
